@@ -20,6 +20,12 @@ CLAIMS = {
     },
 }
 
+CLAIMS["C29"] = {
+    "technique": _T + ": one inductive step of Service::timestamp from an arbitrary (clock, last_timestamp) state + 3-step unrolling",
+    "text": "The solver shows, for every 64-bit clock reading and every previously signed timestamp < u64::MAX, that Service::timestamp returns a value strictly greater than the previous one and remembers it; by induction over calls this covers runs of any length and any clock behaviour (forward, stalled, backward). A 3-call unrolling with arbitrary clocks in between cross-checks the induction.",
+    "note": "Trusted: Kani/CBMC; the partially initialised Service (only clock/last_timestamp written). Outside: last_timestamp == u64::MAX; that all signing sites use Service::timestamp (read off the source).",
+}
+
 NOT_APPLICABLE = {
     "C01": "post-fetch refdb contents vs signed refs: decided inside FetchState::run over gix transport, libgit2 ref transactions and ed25519 signatures (FFI / curve arithmetic) - not encodable for CBMC/SMT within reach (DESIGN §7)",
     "C02": "threshold gate and Behind/Diverged handling are statements inside FetchState::run between git I/O calls; no function boundary to drive symbolically (DESIGN §7)",
@@ -40,4 +46,4 @@ NOT_APPLICABLE = {
 
 # Planned in DESIGN.md §4 but the check is not built (yet): listed as not applicable until it is.
 _P = "solver-based check planned in DESIGN.md §4 but not built yet in this tree; not claimed until it runs"
-PENDING = {k: _P for k in ["C03", "C12", "C13", "C15", "C17", "C19", "C21", "C22", "C23", "C24", "C25", "C26", "C27", "C29"]}
+PENDING = {k: _P for k in [k for k in ["C03", "C12", "C13", "C15", "C17", "C19", "C21", "C22", "C23", "C24", "C25", "C26", "C27", "C29"] if k not in CLAIMS]}
